@@ -137,12 +137,23 @@ struct GState {
     /// connections whose connector side is gone while the accepted side is alive, or on which a
     /// write was issued after the peer side was gone (O11)
     half_dead: bool,
+    /// data was written on a stream (resets become possible), or a stream end went away without a
+    /// pause long enough for its FIN / the answering RST to leave the network before the port can
+    /// be used again (O11: segments of the old connection hit a new one on the same address pair)
+    stale_possible: bool,
+}
+
+fn settle_ticks(sc: &PortsSc) -> u16 {
+    2 * sc.cfg.max_latency_ticks() as u16 + 3
 }
 
 fn gstate(sc: &PortsSc, upto: usize) -> GState {
     let (lo, hi) = range_of(sc);
-    let mut st = GState { objs: Vec::new(), failed_connect: vec![false; sc.hosts], half_dead: false };
+    let mut st = GState { objs: Vec::new(), failed_connect: vec![false; sc.hosts], half_dead: false, stale_possible: false };
+    let settle = settle_ticks(sc);
     for (k, op) in sc.ops.iter().enumerate().take(upto) {
+        let settled_after = matches!(sc.ops.get(k + 1), Some(POp::Sleep { ticks }) if *ticks >= settle) || k + 1 == sc.ops.len();
+        let streams_before = st.objs.iter().filter(|o| matches!(o.kind, GKind::Stream { .. })).count();
         match op {
             POp::UdpBind { host, port, .. } => {
                 let in_range = match port {
@@ -161,11 +172,15 @@ fn gstate(sc: &PortsSc, upto: usize) -> GState {
             POp::Connect { host, lslot, .. } => {
                 if let Some(l) = st.objs.iter().find(|o| o.slot == *lslot).cloned() {
                     st.objs.push(GObj { slot: 2 * k, host: *host, kind: GKind::Stream { conn: k, accepted: false }, in_range: true });
-                    st.objs.push(GObj { slot: 2 * k + 1, host: l.host, kind: GKind::Stream { conn: k, accepted: true }, in_range: false });
+                    // the accepted side keeps occupying the listener's port after the listener is gone
+                    st.objs.push(GObj { slot: 2 * k + 1, host: l.host, kind: GKind::Stream { conn: k, accepted: true }, in_range: l.in_range });
                 }
             }
             POp::ConnectRefused { host, .. } | POp::ConnectCancelled { host, .. } => st.failed_connect[*host] = true,
             POp::Write { slot } => {
+                if st.objs.iter().any(|o| o.slot == *slot && matches!(o.kind, GKind::Stream { .. })) {
+                    st.stale_possible = true;
+                }
                 if let Some(o) = st.objs.iter().find(|o| o.slot == *slot) {
                     if let GKind::Stream { conn, accepted } = o.kind {
                         let peer_alive = st.objs.iter().any(|p| p.kind == GKind::Stream { conn, accepted: !accepted });
@@ -198,6 +213,10 @@ fn gstate(sc: &PortsSc, upto: usize) -> GState {
             }
             POp::Sleep { .. } => {}
         }
+        let streams_after = st.objs.iter().filter(|o| matches!(o.kind, GKind::Stream { .. })).count();
+        if streams_after < streams_before && !settled_after {
+            st.stale_possible = true;
+        }
     }
     st
 }
@@ -207,7 +226,8 @@ pub fn o4_exposed(sc: &PortsSc) -> bool {
 }
 
 pub fn o11_exposed(sc: &PortsSc) -> bool {
-    gstate(sc, sc.ops.len()).half_dead
+    let g = gstate(sc, sc.ops.len());
+    g.half_dead || g.stale_possible
 }
 
 fn gen_ports(rng: &mut Rng) -> PortsSc {
@@ -292,10 +312,7 @@ fn gen_ports(rng: &mut Rng) -> PortsSc {
                 }
                 let s = *rng.pick(&streams);
                 if guarded {
-                    let GKind::Stream { conn, accepted } = s.kind else { continue };
-                    if !st.objs.iter().any(|p| p.kind == GKind::Stream { conn, accepted: !accepted }) {
-                        continue;
-                    }
+                    continue;
                 }
                 POp::Write { slot: s.slot }
             }
@@ -309,7 +326,14 @@ fn gen_ports(rng: &mut Rng) -> PortsSc {
                     if let GKind::Stream { conn, accepted: false } = o.kind {
                         if let Some(p) = st.objs.iter().find(|p| p.kind == GKind::Stream { conn, accepted: true }) {
                             sc.ops.push(POp::Drop { slot: p.slot });
+                            sc.ops.push(POp::Sleep { ticks: settle_ticks(&sc) });
                         }
+                    }
+                    if matches!(o.kind, GKind::Stream { .. }) {
+                        // ... and let the FIN / RST of the old connection leave the network
+                        sc.ops.push(POp::Drop { slot: o.slot });
+                        sc.ops.push(POp::Sleep { ticks: settle_ticks(&sc) });
+                        continue;
                     }
                 }
                 POp::Drop { slot: o.slot }
@@ -320,9 +344,13 @@ fn gen_ports(rng: &mut Rng) -> PortsSc {
                         if let GKind::Stream { conn, accepted: false } = o.kind {
                             if let Some(p) = st.objs.iter().find(|p| p.host != host && p.kind == GKind::Stream { conn, accepted: true }) {
                                 sc.ops.push(POp::Drop { slot: p.slot });
+                                sc.ops.push(POp::Sleep { ticks: settle_ticks(&sc) });
                             }
                         }
                     }
+                    sc.ops.push(POp::CrashBounce { host, down: rng.range(0, 3) as u16 });
+                    sc.ops.push(POp::Sleep { ticks: settle_ticks(&sc) });
+                    continue;
                 }
                 POp::CrashBounce { host, down: rng.range(0, 3) as u16 }
             }
@@ -711,25 +739,24 @@ fn run_ports(sc: &PortsSc, keep: bool) -> Report {
         let mut last_eph: Vec<Option<u16>> = vec![None; sc.hosts];
         let mut ever_used: Vec<BTreeSet<u16>> = vec![BTreeSet::new(); sc.hosts];
         let mut crashed_since: Vec<bool> = vec![false; sc.hosts];
-        let mut rst_possible = false;
         let mut k = 0usize;
         let mut op_steps = 0u64;
         let step = |sim: &mut turmoil::Sim<'_>, steps: &mut u64| -> Result<(), String> {
             *steps += 1;
             sim.step().map(|_| ()).map_err(|e| e.to_string())
         };
-        let hook_check = |sim: &turmoil::Sim<'_>, m: &Model, after: &str, exact_streams: bool| -> Option<Violation> {
+        let hook_check = |sim: &turmoil::Sim<'_>, m: &Model, after: &str| -> Option<Violation> {
             for h in 0..sc.hosts {
                 let c = sim.verif_host_table_counts(host_name(h));
-                let (u, t, s) = (m.udp(h).len(), m.tcpl(h).len(), m.streams(h));
+                let (u, t, s, live) = (m.udp(h).len(), m.tcpl(h).len(), m.streams(h), m.streams_certain(h));
                 if c.udp_binds != u || c.tcp_binds != t {
                     return Some(Violation::new("BindTableMismatch", format!("after {after}: host h{h} holds {} UDP and {} TCP binds, the live sockets/listeners are {u} and {t}", c.udp_binds, c.tcp_binds)));
                 }
                 if c.tcp_streams > s {
                     return Some(Violation::new("StreamEntryLeak", format!("[h={h}] after {after}: the stream table of h{h} has {} entries but only {s} stream objects are alive on it (a port stays occupied by nothing)", c.tcp_streams)));
                 }
-                if exact_streams && c.tcp_streams < s {
-                    return Some(Violation::new("StreamEntryMissing", format!("after {after}: {s} stream objects are alive on h{h} but its stream table has only {} entries (their ports look free to the allocator)", c.tcp_streams)));
+                if c.tcp_streams < live {
+                    return Some(Violation::new("StreamEntryMissing", format!("after {after}: {live} stream objects are alive on h{h} (none of them can have been reset) but its stream table has only {} entries (the ports of live streams look free to the allocator)", c.tcp_streams)));
                 }
             }
             None
@@ -748,19 +775,13 @@ fn run_ports(sc: &PortsSc, keep: bool) -> Report {
                         let mut m = model.borrow_mut();
                         let dead: Vec<usize> = m.objs.iter().filter(|(_, o)| o.host == *host).map(|(s, _)| *s).collect();
                         for s in dead {
-                            if let Some(MObj { kind: MKind::Stream { conn, accepted: false, .. }, .. }) = m.objs.get(&s) {
-                                let c = *conn;
-                                if m.objs.values().any(|p| matches!(p.kind, MKind::Stream { conn: c2, accepted: true, .. } if c2 == c)) {
-                                    rst_possible = true;
-                                }
-                            }
-                            m.objs.remove(&s);
+                            m.remove(s);
                             sh.slot_host.borrow_mut().remove(&s);
                             sh.lports.borrow_mut().remove(&s);
                         }
                     }
                     crashed_since[*host] = true;
-                    if let Some(v) = hook_check(&sim, &model.borrow(), &format!("op #{k} crash of h{host}"), false) {
+                    if let Some(v) = hook_check(&sim, &model.borrow(), &format!("op #{k} crash of h{host}")) {
                         violation = Some(v);
                         break 'run;
                     }
@@ -883,7 +904,7 @@ fn run_ports(sc: &PortsSc, keep: bool) -> Report {
                 }
                 let Part::Bound { port: p } = p0 else { return None };
                 ever_used[host].insert(*p);
-                m.objs.insert(2 * k, MObj { host, kind: if udp { MKind::Udp { port: *p } } else { MKind::Listener { port: *p } } });
+                m.objs.insert(2 * k, MObj::new(host, if udp { MKind::Udp { port: *p } } else { MKind::Listener { port: *p } }));
                 sh.slot_host.borrow_mut().insert(2 * k, host);
                 if !udp {
                     sh.lports.borrow_mut().insert(2 * k, *p);
@@ -944,22 +965,30 @@ fn run_ports(sc: &PortsSc, keep: bool) -> Report {
                     v
                 }
                 POp::Write { slot } => {
-                    if let Some(MObj { kind: MKind::Stream { conn, accepted, .. }, .. }) = m.objs.get(slot) {
-                        let (c, a) = (*conn, *accepted);
-                        if !m.objs.values().any(|p| matches!(p.kind, MKind::Stream { conn: c2, accepted: a2, .. } if c2 == c && a2 != a)) {
-                            rst_possible = true;
+                    // the byte is never read: a live peer now holds unread data (dropping it resets
+                    // this stream); a peer that is gone answers with a reset
+                    match m.peer_slot(*slot) {
+                        Some(p) => {
+                            m.objs.get_mut(&p).unwrap().unread = true;
+                            probes.inc("write_to_live_peer");
+                        }
+                        None => {
+                            if let Some(o) = m.objs.get_mut(slot) {
+                                o.maybe_reset = true;
+                            }
                             probes.inc("write_to_dead_peer");
                         }
                     }
                     None
                 }
                 POp::Drop { slot } => {
-                    if let Some(o) = m.objs.remove(slot) {
-                        if let MKind::Stream { conn, accepted: false, .. } = o.kind {
-                            if m.objs.values().any(|p| matches!(p.kind, MKind::Stream { conn: c2, accepted: true, .. } if c2 == conn)) {
-                                rst_possible = true;
-                                probes.inc("connector_side_dropped_first");
-                            }
+                    let peer_alive = m.peer_slot(*slot).is_some();
+                    if let Some(o) = m.remove(*slot) {
+                        if matches!(o.kind, MKind::Stream { accepted: false, .. }) && peer_alive {
+                            probes.inc("connector_side_dropped_first");
+                        }
+                        if o.unread && peer_alive {
+                            probes.inc("dropped_with_unread_data_resets_peer");
                         }
                         probes.inc("object_dropped");
                     }
@@ -974,7 +1003,7 @@ fn run_ports(sc: &PortsSc, keep: bool) -> Report {
                 violation = Some(v);
                 break 'run;
             }
-            if let Some(v) = hook_check(&sim, &model.borrow(), &format!("op #{k} {op:?}"), !rst_possible) {
+            if let Some(v) = hook_check(&sim, &model.borrow(), &format!("op #{k} {op:?}")) {
                 violation = Some(v);
                 break 'run;
             }
@@ -1475,12 +1504,12 @@ impl Property for C15 {
     fn signature(sc: &Scenario) -> String {
         match sc {
             Scenario::Ports(p) => format!(
-                "ports {}{}{} hosts={} range={:?} lat={}us ops={}",
+                "ports {}{}{} hosts={} range={} lat={}us ops={}",
                 if o4_exposed(p) { "O4-EXPOSED " } else { "" },
                 if o11_exposed(p) { "O11-EXPOSED " } else { "" },
                 if p.guarded { "G" } else { "U" },
                 p.hosts,
-                p.cfg.ephemeral,
+                p.cfg.ephemeral.map(|(a, b)| b - a + 1).unwrap_or(0),
                 p.cfg.max_latency_us,
                 p.ops
                     .iter()
